@@ -90,13 +90,49 @@ func shapeOfFile(path string) ([]string, error) {
 	return out, nil
 }
 
+// shapePkgVars: also list every package-level VAR of the anchored packages (new process-wide state anywhere in the
+// package); switched on per property by a "pkgvars" element in -shape-extra.
+func pkgVarsOf(repo, dir string) []string {
+	var out []string
+	ents, _ := os.ReadDir(filepath.Join(repo, dir))
+	for _, e := range ents {
+		n := e.Name()
+		if !strings.HasSuffix(n, ".go") || strings.HasSuffix(n, "_test.go") || strings.HasPrefix(n, "verif_") {
+			continue
+		}
+		fs := token.NewFileSet()
+		f, err := parser.ParseFile(fs, filepath.Join(repo, dir, n), nil, parser.SkipObjectResolution)
+		if err != nil {
+			continue
+		}
+		for _, d := range f.Decls {
+			if gd, ok := d.(*ast.GenDecl); ok && gd.Tok == token.VAR {
+				for _, sp := range gd.Specs {
+					if vs, ok := sp.(*ast.ValueSpec); ok {
+						for _, nm := range vs.Names {
+							if nm.Name != "_" {
+								out = append(out, "var "+nm.Name+"   [in "+n+"]")
+							}
+						}
+					}
+				}
+			}
+		}
+	}
+	sort.Strings(out)
+	return out
+}
+
 func writeShape(repo, propsPath, id, outDir, extra string) error {
 	files, err := anchorFiles(propsPath, id)
 	if err != nil {
 		return err
 	}
+	pkgVars := false
 	for _, e := range strings.Split(extra, ",") {
-		if e = strings.TrimSpace(e); e != "" {
+		if e = strings.TrimSpace(e); e == "pkgvars" {
+			pkgVars = true
+		} else if e != "" {
 			files = append(files, e)
 		}
 	}
@@ -181,6 +217,14 @@ func writeShape(repo, propsPath, id, outDir, extra string) error {
 		if len(extra) > 0 {
 			fmt.Fprintf(&sb, "== methods of anchored types declared elsewhere in %s/\n", dir)
 			for _, l := range extra {
+				sb.WriteString("  " + l + "\n")
+			}
+		}
+	}
+	if pkgVars {
+		for _, dir := range dirs {
+			fmt.Fprintf(&sb, "== package-level variables of %s/\n", dir)
+			for _, l := range pkgVarsOf(repo, dir) {
 				sb.WriteString("  " + l + "\n")
 			}
 		}
